@@ -27,7 +27,7 @@ def _records(rng, n, uniform=False):
     for i in range(n):
         k = 0 if uniform else rng.randrange(3)
         if k == 0:
-            out.append(D[0](n=rng.randrange(4), s=rng.choice(["a", "b", "x", ""]), other=rng.choice([None, 0, 5])))
+            out.append(D[0](n=rng.randrange(4), s=rng.choice(["a", "b", "x", "", "a  b", "a b", "a\tb"]), other=rng.choice([None, 0, 5])))
         elif k == 1:
             out.append(D[1](s=rng.choice(["a", "xa", "c"]), t=rng.choice(["a", "t"])))
         else:
@@ -35,7 +35,7 @@ def _records(rng, n, uniform=False):
     return out
 
 
-EXPRS = ["r.n == 1", "r.s in ['a', 'b']", "'x' in r.s", "lower(r.s) == 'a'", "field_equals(r, ['s'], ['a'])", "name(r) == 'c10/a'", "has_field(r, 'n')", "fields('varint')", "any(f.name == 'n' for f in fields('varint'))",
+EXPRS = ["r.s == 'a  b'", "r.s not in ['a b', 'a\tb']", "r.n == 1", "r.s in ['a', 'b']", "'x' in r.s", "lower(r.s) == 'a'", "field_equals(r, ['s'], ['a'])", "name(r) == 'c10/a'", "has_field(r, 'n')", "fields('varint')", "any(f.name == 'n' for f in fields('varint'))",
          "Type.string == 'a'", "'a' in Type.string", "r.missing == 1", "r.n > 1 and r.s != 'a' or not r.n", "r.n + 1 >= 2", "upper(r.s) in ('A', 'B')", "field_contains(r, ['s'], ['a'])", "r.s", "not r.other", "r.n >= 2",
          "r.f > 1", "1 < r.n < 3", "r.n != 2 and has_field(r, 't') or r.s == 'x'"]
 KINDS = {"stream": ("", "a.records", False), "stream-gz": ("", "a.records.gz", False), "json": ("jsonfile://", "a.json", False), "avro": ("avro://", "a.avro", True), "csv": ("csvfile://", "a.csv", True), "sqlite": ("sqlite://", "a.sqlite", False)}
